@@ -82,7 +82,9 @@ func memoryCopierGas(stackpos int) gasFunc {
 			return 0, ErrGasUintOverflow
 		}
 		if common.IsProposal026() {
-			return gas * common.GasMagnification, nil
+			if gas, overflow = utility.SafeMul(gas, common.GasMagnification); overflow {
+				return 0, ErrGasUintOverflow
+			}
 		}
 		return gas, nil
 	}
@@ -143,7 +145,9 @@ func makeGasLog(n uint64) gasFunc {
 			return 0, ErrGasUintOverflow
 		}
 		if common.IsProposal026() {
-			return gas * common.GasMagnification, nil
+			if gas, overflow = utility.SafeMul(gas, common.GasMagnification); overflow {
+				return 0, ErrGasUintOverflow
+			}
 		}
 		return gas, nil
 	}
@@ -165,7 +169,9 @@ func gasSha3(evm *EVM, contract *Contract, stack *Stack, mem *Memory, memorySize
 		return 0, ErrGasUintOverflow
 	}
 	if common.IsProposal026() {
-		return gas * common.GasMagnification, nil
+		if gas, overflow = utility.SafeMul(gas, common.GasMagnification); overflow {
+			return 0, ErrGasUintOverflow
+		}
 	}
 	return gas, nil
 }
@@ -203,7 +209,9 @@ func gasCreate2(evm *EVM, contract *Contract, stack *Stack, mem *Memory, memoryS
 		return 0, ErrGasUintOverflow
 	}
 	if common.IsProposal026() {
-		return gas * common.GasMagnification, nil
+		if gas, overflow = utility.SafeMul(gas, common.GasMagnification); overflow {
+			return 0, ErrGasUintOverflow
+		}
 	}
 	return gas, nil
 }
